@@ -13,6 +13,8 @@ ALNUM = b"abcdefghijklmnopqrstuvwxyzABCDEFGHIJKLMNOPQRSTUVWXYZ0123456789"
 ALPHA = ALNUM[:52]
 ADD, REMOVE, SET, SEARCH, DOSEARCH, GETID, WRITE, LOAD, RESET, UNLOAD, ATTACH, ATTACH_HDR, BATTERY, BUCKETS = 10, 11, 12, 13, 14, 15, 20, 21, 22, 23, 25, 26, 30, 31
 BBS_RELOAD = 27
+WSPARSE, SLOTS = 24, 32   # (WSPARSE, n, {slot: id}): a .PASSWDS of n records, the empty id everywhere else; (SLOTS, [slot..]): print the ids of these slots only
+PREALLOC = 1000           # cache.PRE_ALLOCATED_USERS (compared with the compiled constant of both builds in main)
 BY2 = 29   # (BY2, mode, op): op is executed by a second process attached to the existing segment (mode 1: NewSHM with the create flag); its Shm.IsNew is false
 BY2_OPS = (ADD, REMOVE, SET, SEARCH, DOSEARCH, GETID, LOAD)
 
@@ -25,6 +27,47 @@ def cpre(b):
     return bytes(b).split(b"\0")[0]
 
 
+def over(longer, shorter):
+    """the USER_ID_SZ-byte array of a variable (a caller's UserID_t, a .PASSWDS userid field, a query buffer) that held `longer` and was then reused
+    for `shorter` with C-string semantics (UserID_t.CopyFrom, strlcpy): shorter, NUL, the leftovers of longer. As a C string it IS shorter."""
+    a = bytearray(pad(longer))
+    n = min(len(shorter), IDLEN_MAX)
+    a[:n] = shorter[:n]
+    a[n] = 0
+    return bytes(a)
+
+
+def valid_id(b):
+    """ptttype.UserID_t.IsValid transcribed: 2..IDLEN characters before the first NUL, a letter first, letters and digits only"""
+    p_ = cpre(pad(b))
+    return 2 <= len(p_) <= IDLEN_MAX and p_[:1].isalpha() and p_.isalnum() and all(ch < 128 for ch in p_)
+
+
+class Tab:
+    """Userid[] of the reference: sparse (the docker build has 2 000 000 slots), the empty id by default"""
+
+    def __init__(self, n):
+        self.n, self.d = n, {}
+
+    def __getitem__(self, s):
+        if isinstance(s, slice):
+            return [self.d.get(i, EMPTY) for i in range(*s.indices(self.n))]
+        return self.d.get(s, EMPTY)
+
+    def __setitem__(self, s, v):
+        self.d[s] = v
+
+    def __len__(self):
+        return self.n
+
+    def __iter__(self):
+        raise TypeError("Tab is sparse: iterate over the slots of interest")
+
+    def key(self):
+        return tuple(sorted(self.d.items()))
+
+
+EMPTY = pad(b"")
 _FOLD = {}
 
 
@@ -47,6 +90,12 @@ def pyhash(b, bits=16):
     return h % (1 << bits)
 
 
+def showid(b):
+    """an id as the C string it is, with the bytes behind its terminator when there are any"""
+    b = pad(b)
+    return cpre(b) if not b[len(cpre(b)):].strip(b"\0") else b.rstrip(b"\0")
+
+
 def toks(b):
     return " ".join(str(x) for x in b)
 
@@ -63,15 +112,17 @@ def op_line(o):
         return "%d %s" % (k, toks(pad(o[1])))
     if k in (WRITE, BATTERY):
         return ("%d " % k + " ".join(toks(pad(i)) for i in o[1])).strip()
-    if k == BUCKETS:
+    if k == WSPARSE:
+        return ("%d %d " % (k, o[1]) + " ".join("%d %s" % (s_, toks(pad(i))) for s_, i in sorted(o[2].items()))).strip()
+    if k in (BUCKETS, SLOTS):
         return ("%d " % k + toks(o[1])).strip()
     if k == ATTACH_HDR:
         return "%d %d %d" % (k, o[1], o[2])
     return "%d" % k
 
 
-def case_line(ops):
-    return "1|" + "|".join(op_line(o) for o in ops)
+def case_line(ops, op="1"):
+    return op + "|" + "|".join(op_line(o) for o in ops)
 
 
 class Ref:
@@ -79,13 +130,15 @@ class Ref:
 
     def __init__(self, maxu):
         self.maxu = maxu
-        self.table = [pad(b"")] * maxu
+        self.table = Tab(maxu)
+        self.slots = range(maxu)   # the slots whose ids the driver prints
         self.indexed = set()
         self.file = []
         self.number = self.loaded = 0
         self.wild = True          # after Shm.Reset every head points at slot 0: not a state the property speaks about
         self.off_premise = False  # an operation outside the property's premises was issued; only the correspondence is judged from here on
         self.battery, self.buckets = [], []
+        self.watching = False     # no (BUCKETS, ..) yet: the driver prints no chain (the docker scenarios set their buckets after the first load)
         self._hm = None
 
     def holders(self, q):
@@ -125,26 +178,46 @@ class Ref:
             return (0, 0)
         if k == WRITE:
             self.file = [pad(i) for i in o[1]]
+        elif k == WSPARSE:
+            self.file = [EMPTY] * o[1]
+            for s_, i in o[2].items():
+                self.file[s_] = pad(i)
+        elif k == SLOTS:
+            self.slots = list(o[1]) if o[1] else range(self.maxu)
         elif k == RESET:
-            self.table = [pad(b"")] * self.maxu; self.indexed = set(); self.number = self.loaded = 0; self.wild = True
+            self.table = Tab(self.maxu); self.indexed = set(); self.number = self.loaded = 0; self.wild = True
         elif k == UNLOAD:
             self.number = self.loaded = 0
         elif k == LOAD:
             n = len(self.file)
+            # the loader's cap on free slots: records WITHOUT a valid id (free slots: the empty id) are filed only while at most PRE_ALLOCATED_USERS of them have been
+            # seen; a later one is left alone (not stored, on no chain). A record with a valid id is ALWAYS stored and indexed, however many free records precede it.
+            # A later record with a non-empty invalid id is a slot the property says nothing definite about (occupied by something that is not a user id).
+            cnt, filed = 0, []
+            for i in range(n):
+                if self.file[i] is not EMPTY and valid_id(self.file[i]):
+                    filed.append(i)
+                    continue
+                cnt += 1
+                if cnt <= PREALLOC:
+                    filed.append(i)
+                elif self.file[i][0] != 0:
+                    self.off_premise = True
+                    return None
             if self.number == 0 and self.loaded == 0:                 # cold load: from any prior state
-                for i in range(n):
+                for i in filed:
                     self.table[i] = self.file[i]
-                self.indexed = set(range(n)); self.loaded = 1; self.wild = False
+                self.indexed = set(filed); self.loaded = 1; self.wild = False
             else:                                                     # reload into a populated segment
-                if self.wild or any(cpre(self.file[i]) != cpre(self.table[i]) for i in range(n)):
+                if self.wild or any(cpre(self.file[i]) != cpre(self.table[i]) for i in range(n) if self.file[i] is not EMPTY or i in self.table.d):
                     self.off_premise = True                           # .PASSWDS disagrees with the live table
                     return None
-                self.indexed |= set(range(n))
+                self.indexed |= set(filed)
             self.number = n
         elif k == BATTERY:
             self.battery = [pad(i) for i in o[1]]
         elif k == BUCKETS:
-            self.buckets = list(o[1])
+            self.buckets = list(o[1]); self.watching = True
         elif k == ATTACH_HDR:
             return (0, 0) if (o[1], o[2]) == self.hdr else (3, 4) if o[1] != self.hdr[0] else (3, 5)
         return (0, 0)
@@ -155,7 +228,10 @@ def parse(line, ops, maxu):
     if t[0] != 0:
         return None
     i, out = 1, []
+    nslots = maxu
     for o in ops:
+        if o[0] == SLOTS:
+            nslots = len(o[1]) if o[1] else maxu
         if i == len(t) and out and out[-1][0] == 2:      # the driver abandons a history after a step that did not return
             break
         st, code = t[i], t[i + 1]; i += 2
@@ -171,7 +247,7 @@ def parse(line, ops, maxu):
         for _ in range(nb):
             h, k = t[i], t[i + 1]
             chains[h] = (t[i + 2:i + 2 + k], t[i + 2 + k]); i += 3 + k
-        ids = [bytes(t[i + IDSZ * s:i + IDSZ * (s + 1)]) for s in range(maxu)]; i += IDSZ * maxu
+        ids = [bytes(t[i + IDSZ * s:i + IDSZ * (s + 1)]) for s in range(nslots)]; i += IDSZ * nslots
         nl = t[i]; looks = t[i + 1:i + 1 + nl]; i += 1 + nl
         out.append((st, code, extra, number, loaded, nonempty, chains, ids, looks))
     assert i == len(t), (i, len(t))
@@ -209,7 +285,7 @@ def judge(ops, line, maxu, hdr):
             o = o[2]
         name = {ADD: "AddToUHash", REMOVE: "RemoveFromUHash", SET: "SetUserID", SEARCH: "SearchUserRaw", DOSEARCH: "DoSearchUserRaw", GETID: "GetUserID", LOAD: "LoadUHash",
                 ATTACH: "attach by a second process", ATTACH_HDR: "attach with header"}.get(o[0], "op %d" % o[0])
-        desc = "%s%s%s" % (name, tuple(cpre(x) if isinstance(x, (bytes, bytearray)) else x for x in o[1:]) if o[0] not in (WRITE, BATTERY, BUCKETS) else "", who)
+        desc = "%s%s%s" % (name, tuple(showid(x) if isinstance(x, (bytes, bytearray)) else x for x in o[1:]) if o[0] not in (WRITE, WSPARSE, SLOTS, BATTERY, BUCKETS) else "", who)
         if st == 2 and o[0] == LOAD:
             desc += " on a segment with " + pre
         if st in (1, 2) and exp is not None:
@@ -232,11 +308,14 @@ def judge(ops, line, maxu, hdr):
                 return (n, "right-id", "%s copies %r into rightID, the slot holds %r" % (desc, extra, want))
         if o[0] == GETID and st == 0 and extra != r.table[o[1] - 1]:
             return (n, "ids", "%s returns %r, the slot holds %r" % (desc, extra, r.table[o[1] - 1]))
-        if ids != r.table:
-            bad = [s for s in range(maxu) if ids[s] != r.table[s]]
-            return (n, "ids", "after %s Userid[%d] = %r, expected %r" % (desc, bad[0], ids[bad[0]], r.table[bad[0]]))
+        want_ids = [r.table[s] for s in r.slots]
+        if ids != want_ids:
+            bad = [j for j in range(len(want_ids)) if ids[j] != want_ids[j]]
+            return (n, "ids", "after %s Userid[%d] = %r, expected %r" % (desc, r.slots[bad[0]], ids[bad[0]], want_ids[bad[0]]))
         if (number, loaded) != (r.number, r.loaded):
             return (n, "number", "after %s Number/Loaded = %d/%d, expected %d/%d" % (desc, number, loaded, r.number, r.loaded))
+        if not r.watching:
+            continue
         seen = {}
         for h, (slots, end) in sorted(chains.items()):
             if end != -1:
@@ -245,8 +324,8 @@ def judge(ops, line, maxu, hdr):
                 if s in seen:
                     return (n, "slot-on-two-chains", "after %s slot %d is on the chains of buckets %d and %d (or twice on one)" % (desc, s, seen[s], h))
                 seen[s] = h
-                if pyhash(ids[s]) != h:
-                    return (n, "slot-on-wrong-chain", "after %s slot %d (id %r, hash %d) is on the chain of bucket %d" % (desc, s, cpre(ids[s]), pyhash(ids[s]), h))
+                if pyhash(r.table[s]) != h:
+                    return (n, "slot-on-wrong-chain", "after %s slot %d (id %r, hash %d) is on the chain of bucket %d" % (desc, s, cpre(r.table[s]), pyhash(r.table[s]), h))
         if set(seen) != r.indexed:
             miss, extra_s = sorted(r.indexed - set(seen)), sorted(set(seen) - r.indexed)
             if miss:
@@ -266,13 +345,22 @@ def judge(ops, line, maxu, hdr):
 
 
 def main():
+    if any("replay" in a for a in sys.argv[1:]):     # a replay of a production-configuration history ("11|..") is passed on to this driver by the default one
+        vf.build_impl(tags="verif docker", name="implrun_docker")
     c = vf.Check("C04")
+    import time
+    t00 = time.time()
+
+    def lap(what):
+        if os.environ.get("VERIF_C04_TIMING"):
+            sys.stderr.write("[C04 %6.1fs] %s\n" % (time.time() - t00, what))
     rng = c.rng
     thorough = c.tier == "thorough"
     c.prove()
     model_ok = c.model_ok()
     impl = vf.build_impl()
     model = vf.build_model("C04") if model_ok else None
+    lap("proofs, drivers, model built")
     vf.ipc_cleanup()
 
     def both(lines, label, shown=None):
@@ -283,6 +371,8 @@ def main():
 
     k = both(["3"], "constants (MAX_USERS, 1<<HASH_BITS, USER_ID_SZ, SHM_VERSION, SHM_RAW_SZ, PRE_ALLOCATED_USERS)")[0].split()
     maxu, hashn, idsz, shmver, shmsz = (int(x) for x in k[1:6])
+    if int(k[6]) != PREALLOC or idsz != IDSZ:
+        c.broken.append({"kind": "harness", "where": "checks/C04.py constants", "theorem": "the check's PRE_ALLOCATED_USERS / USER_ID_SZ are the compiled ones", "log": " ".join(k)})
     bits = hashn.bit_length() - 1
     hdr = (shmver, shmsz)
     c.count(1, "constants")
@@ -371,6 +461,15 @@ def main():
                 full.append(i)
     spare = [rand_id() for _ in range(25)]                    # used when every pool id is taken
     junk = b"bob\0XYZ"                                        # bytes after the NUL are stored but must not matter
+    # what a reused buffer held before: a 12-character id, a 11-character one, bytes >= 0x80 (no character of any id), and an id of the pool
+    LEFT = [b"LongUserName", b"sysopishere", bytes([0xe4, 0xb8, 0xad, 0xff, 0x80, 0xc3, 0x28, 0xa0, 0xa1, 0xfe, 0x81, 0x9f]), b"twelvechars1"]
+
+    def dirt(i, p_=1.0):
+        """i as the C string it is, in a buffer with leftovers behind the terminator (with probability p_)"""
+        i = cpre(pad(i))
+        if len(i) >= IDLEN_MAX or rng.random() >= p_:
+            return i
+        return over(rng.choice(LEFT + [rng.choice(pool)]), i)
     queries = []
     for i in pool + full[:6]:
         queries += [i, i.upper(), i.lower(), i.swapcase()]
@@ -378,7 +477,7 @@ def main():
     for i in prefix_ids:                                       # near misses of the prefix-related ids: one character less, one more, a different last one
         queries += [i[:-1], i[:-1].upper(), (i + b"x")[:IDLEN_MAX], (i + b"0")[:IDLEN_MAX].upper(), i[:-1] + b"_", i[:1]]
     battery = sorted(set(pad(q) for q in queries))
-    buckets = sorted({pyhash(i, bits) for i in pool + full + spare + [b"", junk, b"bob"] + [cpre(q) for q in battery]})
+    buckets = sorted({pyhash(i, bits) for i in pool + full + spare + [b"", junk, b"bob", b"amy"] + [cpre(q) for q in battery]})
 
     # the check's transcription of the hash against the implementation (and the model)
     hl = [pad(i) for i in pool + full] + battery + [bytes(rng.randrange(256) for _ in range(IDSZ)) for _ in range(1500)] + [bytes([rng.randrange(1, 256)] * 13)]
@@ -393,13 +492,16 @@ def main():
     def start(file_ids, loader=(LOAD,)):
         return [(BUCKETS, buckets), (BATTERY, battery), (WRITE, file_ids), loader]
 
-    def narrow(ops, ids):
+    def narrow(ops, ids, dirty=False):
         """the same history with a lookup battery about the ids it uses (4 letter cases, one character less / more / different, the fixed near misses) instead of the
         whole pool's: the extracted model hashes every query after every step in binary arithmetic"""
         qs = [b"", junk, b"nobody", b"ALICEx", b"alic", b"al\0ice"]
         for i in ids:
+            i = cpre(pad(i))
             if i:
                 qs += [i, i.upper(), i.lower(), i.swapcase(), i[:-1], (i + b"x")[:IDLEN_MAX], i[:-1] + b"_"]
+                if dirty:      # the same C string in a buffer that held something longer before
+                    qs += [over(LEFT[0], i), over(LEFT[1], i.swapcase()), over(LEFT[2], i.upper()), over(i + b"xyz", i), over(LEFT[0], i[:-1])]
         bat = sorted(set(pad(q) for q in qs))
         return [(BATTERY, bat) if o[0] == BATTERY else o for o in ops]
 
@@ -413,8 +515,9 @@ def main():
             r.apply(o)
         return (WRITE, [cpre(t) for t in r.table[:nrec]])
 
-    def gen_history(n, style, p2=0.1):
-        """p2: share of the operations that a second, attached process executes instead of the creator"""
+    def gen_history(n, style, p2=0.1, pd=0.0):
+        """p2: share of the operations that a second, attached process executes instead of the creator; pd: share of the ids (arguments of set / add, .PASSWDS records,
+        queries) that arrive in a buffer with leftovers of a longer id behind the terminator"""
         r = Ref(maxu); r.hdr = hdr
         by = lambda o: second(o) if o[0] in BY2_OPS and rng.random() < p2 else o
         if style == "full":
@@ -425,9 +528,14 @@ def main():
             some = rng.sample(pool, rng.randrange(0, min(len(pool), 12)))
             file_ids = (some + [b""] * maxu)[:maxu]
             rng.shuffle(file_ids)
+        if pd:
+            file_ids = [dirt(i, pd) for i in file_ids]
         ops = start(file_ids, by((LOAD,)))
         # every history looks up its own random 96 of the pool's queries (plus the fixed ones) after every step; the scenarios above use complete, focused batteries
-        ops[1] = (BATTERY, sorted(set(rng.sample(battery, min(len(battery), 96))) | {pad(b""), pad(junk), pad(b"nobody")}))
+        bat = set(rng.sample(battery, min(len(battery), 96))) | {pad(b""), pad(junk), pad(b"nobody")}
+        if pd:
+            bat |= {pad(dirt(q)) for q in rng.sample(sorted(bat), 40) if q[0]}
+        ops[1] = (BATTERY, sorted(bat))
         for o in ops:
             r.apply(o)
         free_ids = lambda: [i for i in pool + ([junk] if style != "full" else []) if not r.holders(i)] or [i for i in spare if not r.holders(i)] or pool
@@ -440,7 +548,7 @@ def main():
                     i = rng.choice([i.upper(), i.lower(), i.swapcase()])
                     if r.holders(i) and rng.random() < 0.8:
                         continue
-                o = (SET, slot + 1, i)
+                o = (SET, slot + 1, dirt(i, pd))
             elif x < 0.45:
                 o = (SET, rng.choice([0, -1, maxu + 1, 2**31 - 1, -2**31]), rng.choice(pool))
             elif x < 0.57:
@@ -449,7 +557,7 @@ def main():
                 freeslots = sorted(set(range(maxu)) - r.indexed)
                 if not freeslots:
                     continue
-                o = (ADD, rng.choice(freeslots), rng.choice(free_ids()))
+                o = (ADD, rng.choice(freeslots), dirt(rng.choice(free_ids()), pd))
             elif x < 0.75:
                 q = rng.choice(r.battery + [r.table[s] for s in r.indexed][:10])
                 kind = rng.choice([SEARCH, SEARCH, DOSEARCH])
@@ -458,12 +566,12 @@ def main():
                 elif rng.random() < 0.3:
                     q = rng.choice(prefix_ids or [q])
                     q = rng.choice([q, q[:-1], q + b"x"])[:IDLEN_MAX]
-                o = (kind, rng.choice([q, q.upper(), q.lower()]))
+                o = (kind, dirt(rng.choice([q, q.upper(), q.lower()]), pd if q else 0))
             elif x < 0.78:
                 o = (GETID, rng.choice([1, maxu, slot + 1, 0, maxu + 1]))
             elif x < 0.86:                                                                       # reload into the populated segment from an agreeing file
                 nrec = maxu if rng.random() < 0.7 else rng.randrange(0, maxu + 1)
-                for o in ((WRITE, [cpre(t) if rng.random() < 0.8 else t for t in r.table[:nrec]]), by((LOAD,))):
+                for o in ((WRITE, [(dirt(t, pd) if cpre(t) else t) if rng.random() < 0.8 else t for t in r.table[:nrec]]), by((LOAD,))):
                     r.apply(o); ops.append(o)
                 continue
             elif x < 0.91:                                                                       # cold load over whatever the segment holds
@@ -473,6 +581,7 @@ def main():
                     for i in newfile:
                         nf.append(b"" if i.lower() in seenf else i); seenf.add(i.lower())
                     newfile = nf
+                newfile = [dirt(i, pd) for i in newfile]
                 for o in ((UNLOAD,) if rng.random() < 0.6 else (RESET,), (WRITE, newfile), by((LOAD,))):
                     r.apply(o); ops.append(o)
                 continue
@@ -514,6 +623,38 @@ def main():
             filed = [b"guest"] + order + [b"", b""]              # cold load: records in this order, the empty id (if in the chain) as a free slot between them
             cases.append(narrow(start(filed) + looks() + [(REMOVE, 1)] + looks() + [(SET, 2, order[0] or b"Zz")] + looks() + [(REMOVE, len(order))] + looks() + [agreeing(start(filed) + [(REMOVE, 1), (SET, 2, order[0] or b"Zz"), (REMOVE, len(order))], len(filed)), second((LOAD,), 1)] + looks(), ch + [b"guest", b"Zz"]))
     n_prefix = len(cases) - n_before_prefix
+    # ids in buffers with leftovers behind the terminator (a UserID_t / userid field / query buffer that held a longer id and was reused with C-string semantics):
+    # every place an id comes from - SetUserID / AddToUHash arguments, .PASSWDS records on a cold load and on a reload, the query - x plain ids, a collision family
+    # on one chain, and colliding prefix pairs where the leftover behind the short id is exactly the tail of the long one
+    n_before_left = len(cases)
+    groups = [[b"bob", b"amy", b"SYSOP"], (fams[0][:3] if fams else [b"Bob2", b"a1"])] + [[i for i in ch if i][:3] for ch in prefix_chains[:3]]
+    for g in groups:
+        for li, left in enumerate(LEFT[:3] + [None]):
+            tail_of = {g[j].lower(): g[j + 1] for j in range(len(g) - 1)}    # for prefix chains: the long id of the pair
+
+            def d(i, left=left, tail_of=tail_of):
+                if left is not None:
+                    return over(left, i)
+                long_ = tail_of.get(i.lower())
+                return over(long_, i) if long_ is not None and long_.lower().startswith(i.lower()) else over(LEFT[3], i)
+            lookq = lambda: [x for i in g for x in ((SEARCH, i.swapcase()), (DOSEARCH, d(i.upper())), (SEARCH, over(i + b"zz", i)))]
+            # (a) arguments of SetUserID / AddToUHash
+            ops = start([b""] * maxu)
+            for u, i in enumerate(g):
+                ops += [(SET, u + 4, d(i))]
+            ops += lookq() + [(GETID, 4), (ATTACH,), second((SEARCH, g[0]), 0), (REMOVE, 3)] + lookq() + [(ADD, 3, d(g[0].swapcase()))] + lookq()
+            ops += [(SET, 5, d(b"guest")), (SET, 5, d(g[1]))] + lookq()
+            ops += [agreeing(ops), second((LOAD,), 1)] + lookq()                                              # reload: the file carries the clean C strings
+            cases.append(narrow(ops, g + [b"guest"], dirty=True))
+            if li >= 2 and g is not groups[0]:
+                continue
+            # (b) .PASSWDS records: cold load, reload from a file whose records carry OTHER leftovers (the same C strings), reload from the clean file
+            filed = [d(b"guest")] + [d(i) for i in g] + [b"", pad(b"")[:1] + b"\0free4slot"]
+            other = [over(LEFT[(li + 1) % 3], cpre(x)) for x in filed]
+            ops = start(filed) + lookq() + [(WRITE, other), (LOAD,)] + lookq() + [(REMOVE, 1), (SET, 2, d(g[0]))] + lookq()
+            ops += [(UNLOAD,), (WRITE, other), second((LOAD,), 0)] + lookq() + [(DOSEARCH, b""), (DOSEARCH, over(LEFT[0], b""))]
+            cases.append(narrow(ops, g + [b"guest"], dirty=True))
+    n_left = len(cases) - n_before_left
     # outside the premises (correspondence only): a reload from a file that disagrees, AddToUHash on a slot that is on a chain
     cases.append(start([b"alice", b"Bob2"] + [b""] * (maxu - 2)) + [(WRITE, [b"Bob2", b"alice"] + [b""] * (maxu - 2)), (LOAD,), (SEARCH, b"alice"), (SET, 1, b"guest")])
     cases.append(start([b""] * maxu) + [(SET, 1, b"alice"), (ADD, 0, b"alice"), (ADD, 0, b"Zz"), (REMOVE, 0), (LOAD,)])
@@ -553,7 +694,138 @@ def main():
     n_fixed = len(cases)
     n_hist = 1500 if thorough else 70
     for i in range(n_hist):
-        cases.append(gen_history(rng.randrange(5, 61), ["mixed", "mixed", "full", "short", "mixed"][i % 5], p2=[0.1, 0.0, 0.5, 0.15, 0.9, 0.1, 0.3][i % 7]))
+        cases.append(gen_history(rng.randrange(5, 61), ["mixed", "mixed", "full", "short", "mixed"][i % 5], p2=[0.1, 0.0, 0.5, 0.15, 0.9, 0.1, 0.3][i % 7], pd=[0.0, 0.6, 0.0, 0.3][i % 4]))
+
+    # ---------------------------------------------------------------- the production configuration: -tags docker, MAX_USERS = 2 000 000 > PRE_ALLOCATED_USERS = 1000
+    # The loader files at most PRE_ALLOCATED_USERS records without a valid id (free slots); every record WITH a valid id must be stored and indexed however many
+    # free records precede it, at any slot number (also above the 2^16 buckets), on a cold load and on a reload alike.
+    impl_d = vf.build_impl(tags="verif docker", name="implrun_docker")
+    kd = vf.run_impl(impl_d, "C04", ["3"], deadline_ms=60000)[0].split()
+    if model:
+        vf.correspond(c, "constants of the -tags docker build (MAX_USERS, 1<<HASH_BITS, USER_ID_SZ, SHM_VERSION, SHM_RAW_SZ, PRE_ALLOCATED_USERS)", ["13 (3 on the docker build)"], [" ".join(kd)], vf.run_model(model, ["13"]))
+    maxu_d, hdr_d = int(kd[1]), (int(kd[4]), int(kd[5]))
+    if int(kd[6]) != PREALLOC or int(kd[2]) != hashn or maxu_d <= PREALLOC + 65536:
+        c.broken.append({"kind": "harness", "where": "checks/C04.py docker constants", "theorem": "the docker build has MAX_USERS > 2^16 + PRE_ALLOCATED_USERS, the same hash and cap", "log": " ".join(kd)})
+    c.count(1, "constants")
+    dA, dB, dL = b"Alice01", b"bob2", b"LastUser9999"
+    dfam = (fams[0][:3] if fams else []) + [b"Bob2", b"a1", b"Zz"]
+
+    def dref():
+        r = Ref(maxu_d); r.hdr = hdr_d
+        return r
+
+    def dstart(n, users, slots, ids, loader=(LOAD,)):
+        qs = [b"", b"nobody", over(LEFT[0], b"")]
+        for i in ids:
+            i = cpre(pad(i))
+            qs += [i, i.upper(), i.lower(), i.swapcase(), i[:-1], (i + b"x")[:IDLEN_MAX], over(LEFT[0], i), over(LEFT[2], i.swapcase())]
+        bks = sorted({pyhash(q, bits) for q in ids + [b""]})
+        # the watched buckets and the battery are set AFTER the first load: on the zeroed segment every head is the self-loop 0 -> 0, and walking it MAX_USERS = 2 000 000
+        # steps per bucket and per query after every step costs the extracted model minutes (the zeroed / reset segment is the default build's load matrix)
+        return [(SLOTS, sorted(set(slots))), (WSPARSE, n, dict(users)), loader, (BUCKETS, bks), (BATTERY, sorted(set(pad(q) for q in qs)))]
+
+    def dagreeing(ops, n):
+        r = dref()
+        for o in ops:
+            r.apply(o)
+        return (WSPARSE, n, {s_: cpre(v) for s_, v in r.table.d.items() if s_ < n and cpre(v)})
+
+    dcases = []
+    dids = [b"SYSOP", b"guest", dA, dB, dL, b"newbie", b"late1", b"zed", b"penult"] + dfam
+    # (1) the site with deleted accounts: 5000 records, live users before and far behind the 1000th free record; registration, removal, re-adding, reload by the
+    #     other process, a third process attaching, then a cold load of a differently laid out file over the dirty segment
+    for aname, act in actors[:2] if not thorough else actors:
+        other = (lambda o: second(o, 1)) if aname == "creator" else (lambda o: o)
+        users = {0: b"SYSOP", 1: b"guest", 700: dfam[0], 1500: over(LEFT[0], dA), 1501: dB, 1502: dfam[1], 4999: dL}
+        ops = dstart(5000, users, [0, 1, 2, 700, 999, 1000, 1001, 1002, 1003, 1200, 1500, 1501, 1502, 4000, 4998, 4999], dids, act((LOAD,)))
+        ops += [(SEARCH, dA.swapcase()), (DOSEARCH, dL.upper()), (DOSEARCH, b""), act((SET, 3, b"newbie")), (REMOVE, 1500), (SEARCH, dA), other((ADD, 1500, dfam[2])), (GETID, 1502)]
+        ops += [dagreeing(ops, 5000), other((LOAD,)), (ATTACH,), (SEARCH, dB.upper()), (UNLOAD,), (WSPARSE, 5000, {0: b"SYSOP", 1200: dA, 4000: dB, 4999: over(LEFT[1], dL)}), act((LOAD,)), (ATTACH,), (DOSEARCH, dfam[2])]
+        dcases.append(("5000 records, users at 0, 1, 700 and behind more than 1000 free records at 1500, 1501, 1502, 4999; first load by the %s" % aname, ops))
+    # (2) exactly at the cap: k free records, a user, more free records, users; the (PRE_ALLOCATED_USERS+1)-th free record is the first one left alone
+    for kfree in (PREALLOC - 1, PREALLOC, PREALLOC + 1):
+        users = {kfree: dA, kfree + 5: dB, kfree + 99: dL}
+        ops = dstart(kfree + 100, users, [0, PREALLOC - 2, PREALLOC - 1, PREALLOC, PREALLOC + 1, PREALLOC + 2, PREALLOC + 3, PREALLOC + 4, kfree + 5, kfree + 6, kfree + 99], dids)
+        ops += [(DOSEARCH, b""), (SET, PREALLOC + 4, b"late1"), (SEARCH, b"LATE1"), (REMOVE, kfree)]
+        ops += [dagreeing(ops, kfree + 100), second((LOAD,), 0), (SEARCH, dB), (REMOVE, kfree), (ADD, kfree, dA.upper()), (ATTACH,)]
+        dcases.append(("%d free records ahead of the first user (cap %d)" % (kfree, PREALLOC), ops))
+    # (3) slots above the number of buckets and at the end of the table
+    for aname, act in actors[:1] if not thorough else actors[:2]:
+        nrec = 70000
+        users = {0: b"SYSOP", 65535: dA, 65536: dB, 65537: dfam[0], 69998: dfam[1], 69999: dL}
+        ops = dstart(nrec, users, [0, 65535, 65536, 65537, 69998, 69999, 131072, maxu_d - 2, maxu_d - 1], dids, act((LOAD,)))
+        ops += [(SEARCH, dB.upper()), (DOSEARCH, dfam[1].swapcase()), (SET, maxu_d, b"zed"), (SET, 131073, dfam[2]), (SET, maxu_d + 1, b"nope"), (GETID, maxu_d), (GETID, maxu_d + 1),
+                (ADD, maxu_d - 2, b"penult"), (REMOVE, 65536), (SEARCH, dB), act((SET, 65537, over(LEFT[2], dB)))]
+        ops += [dagreeing(ops, nrec), second((LOAD,), 1), (ATTACH,), (REMOVE, maxu_d - 1), (SEARCH, b"ZED")]
+        dcases.append(("70000 records, users at slots 65535..65537, 69998, 69999; the last slots of the table; first load by the %s" % aname, ops))
+    n_dfixed = len(dcases)
+
+    def gen_dhistory(nops):
+        nrec = rng.choice([PREALLOC + 3, 2500, 5000, 70000])
+        U = sorted({0, 1, rng.randrange(2, PREALLOC - 1), PREALLOC, PREALLOC + 1, rng.randrange(PREALLOC + 2, nrec), rng.randrange(PREALLOC + 2, nrec), nrec - 1, nrec, rng.randrange(nrec, maxu_d), maxu_d - 1})
+        idp = [b"SYSOP", b"guest", dA, dB, dL, b"newbie", b"late1", b"zed"] + dfam
+        by = lambda o: second(o) if o[0] in BY2_OPS and rng.random() < 0.3 else o
+
+        def layout():
+            sl = rng.sample([u for u in U if u < nrec], rng.randrange(2, 6))
+            return {s_: dirt(i, 0.3) for s_, i in zip(sl, rng.sample(idp, len(sl)))}
+        ops = dstart(nrec, layout(), U, idp, by((LOAD,)))
+        r = dref()
+        for o in ops:
+            r.apply(o)
+        while len(ops) < nops + 5:
+            x = rng.random()
+            free = [i for i in idp if not r.holders(i)] or idp
+            if x < 0.3:
+                o = (SET, rng.choice(U) + 1, dirt(rng.choice(free), 0.3))
+            elif x < 0.45:
+                o = (REMOVE, rng.choice(U))
+            elif x < 0.55:
+                fs = [u for u in U if u not in r.indexed]
+                if not fs:
+                    continue
+                o = (ADD, rng.choice(fs), rng.choice(free))
+            elif x < 0.7:
+                q = rng.choice(idp)
+                o = (rng.choice([SEARCH, DOSEARCH]), dirt(rng.choice([q, q.upper(), q.swapcase(), b""]), 0.3))
+                if not cpre(pad(o[1])):
+                    o = (DOSEARCH, b"")
+            elif x < 0.85:
+                for o in ((WSPARSE, nrec, {s_: cpre(v) for s_, v in r.table.d.items() if s_ < nrec and cpre(v)}), by((LOAD,))):
+                    r.apply(o); ops.append(o)
+                continue
+            elif x < 0.93:
+                for o in ((UNLOAD,), (WSPARSE, nrec, layout()), by((LOAD,))):
+                    r.apply(o); ops.append(o)
+                continue
+            else:
+                o = (ATTACH,)
+            o = by(o)
+            r.apply(o); ops.append(o)
+        return ops
+    for i in range(40 if thorough else 3):
+        dcases.append(("generated", gen_dhistory(rng.randrange(8, 30))))
+    for name, ops in dcases:
+        r = dref()
+        for o in ops:
+            r.apply(o)
+        if r.off_premise:
+            c.broken.append({"kind": "harness", "where": "checks/C04.py docker scenarios", "theorem": "the docker scenarios stay inside the property's premises", "log": name})
+    dlines = [case_line(ops, "11") for _, ops in dcases]
+
+    def dshow(o):
+        if o[0] == BY2:
+            return "(%d, %d, %s)" % (o[0], o[1], dshow(o[2]))
+        if o[0] in (BATTERY, BUCKETS, SLOTS):
+            return "%d <%d>" % (o[0], len(o[1]))
+        if o[0] == WSPARSE:
+            return "(24, %d records, %s)" % (o[1], {k_: showid(v) for k_, v in sorted(o[2].items())})
+        return str(tuple(showid(x) if isinstance(x, bytes) else x for x in o))
+    dshown = ["11|" + " | ".join(dshow(o) for o in ops) for _, ops in dcases]
+    lap("cases generated")
+    import threading
+    dio = []
+    dthread = threading.Thread(target=lambda: dio.extend(vf.run_impl(impl_d, "C04", dlines, deadline_ms=120000, max_hangs=2)))
+    dthread.start()
 
     lines = [case_line(ops) for ops in cases]
     shown = ["1|" + " | ".join(str(tuple(cpre(x) if isinstance(x, bytes) else x for x in o)) if o[0] not in (WRITE, BATTERY, BUCKETS) else "%d <%d ids>" % (o[0], len(o[1])) for o in ops) for ops in cases]
@@ -602,13 +874,14 @@ def main():
         keep = [i for i in range(len(cases)) if io[i] != "7"]
         vf.correspond(c, label, [shown[i] for i in keep], [io[i] for i in keep], vf.run_model(model, [lines[i] for i in keep]))
 
+    lap("default histories run and compared")
     found = set()
     for ci, ops in enumerate(cases):
         r = Ref(maxu); r.hdr = hdr
         for o in ops:
             r.apply(o)
             if not r.off_premise and o[0] not in (BATTERY, BUCKETS):
-                c.nontrivial((o[0], o[1:] if o[0] != WRITE else tuple(o[1]), tuple(sorted(r.indexed)), tuple(r.table)))
+                c.nontrivial((o[0], o[1:] if o[0] != WRITE else tuple(o[1]), tuple(sorted(r.indexed)), r.table.key()))
         c.count(len(ops) - 2, "single-slot / chain scenario steps" if ci < n_single else "load-matrix steps (segment state x loading process)" if ci < n_fixed else "generated-history steps")
         c.count((len(ops) - 2) * max(len(o[1]) for o in ops if o[0] == BATTERY), "lookups after a step")
         c.count(sum(1 for o in ops if o[0] == BY2), "operations executed by a second, attached process")
@@ -641,6 +914,51 @@ def main():
         if key == "hang":
             rep["got"] = "status 2 at the last step (the process executing it was killed at the deadline); replay: build/implrun C04 < the case line"
         c.violation(key, text + "  [history: %s]" % rep["history"][2:], rep)
+    # ---------------------------------------------------------------- the production configuration: verdicts
+    lap("default verdicts")
+    dthread.join()
+    lap("docker histories run")
+    vf.ipc_cleanup()
+    if model:
+        keep = [i for i in range(len(dcases)) if dio[i] != "7"]
+        vf.correspond(c, "histories on the -tags docker build (MAX_USERS %d): sparse .PASSWDS with more than %d free records ahead of users, slots above 2^16 and at the end of the table" % (maxu_d, PREALLOC),
+                      [dshown[i] for i in keep], [dio[i] for i in keep], vf.run_model(model, [dlines[i] for i in keep]))
+    for di, ((name, ops), line) in enumerate(zip(dcases, dio)):
+        r = dref()
+        for o in ops:
+            r.apply(o)
+            if o[0] not in (BATTERY, BUCKETS, SLOTS):
+                c.nontrivial(("docker", dshow(o), tuple(sorted(r.indexed))[-40:], r.table.key()))
+        c.count(len(ops) - 3, "production-configuration (docker build) steps")
+        c.count((len(ops) - 3) * max(len(o[1]) for o in ops if o[0] == BATTERY), "lookups after a step")
+        c.count(sum(1 for o in ops if o[0] == BY2), "operations executed by a second, attached process")
+        if line == "7":
+            continue
+        bad = judge(ops, line, maxu_d, hdr_d) if line.split()[:1] != ["2"] else (len(ops) - 1, "hang", "the history does not return within 120 s on the docker build")
+        if bad is None or bad[1] in found:
+            continue
+        found.add(bad[1])
+        step, key, text = bad
+        cur = ops[:step + 1]
+        j = 5
+        while j < len(cur) - 1 and key != "hang":
+            trial = cur[:j] + cur[j + 1:]
+            b2 = judge(trial, vf.run_impl(impl_d, "C04", [case_line(trial, "11")], deadline_ms=120000)[0], maxu_d, hdr_d)
+            if b2 is not None and b2[1] == key and b2[0] == len(trial) - 1:
+                cur, text = trial, b2[2]
+            else:
+                j += 1
+        rp = {"cases": [case_line(cur, "11")], "history": [dshow(o) for o in cur], "scenario": name, "configuration": "-tags docker (MAX_USERS %d, PRE_ALLOCATED_USERS %d)" % (maxu_d, PREALLOC),
+              "how": "the case line starts with 11: build/implrun C04 passes it to build/implrun_docker (go build -tags 'verif docker'); ./check C04 --replay builds both"}
+        if model:
+            ml = vf.run_model(model, [case_line(cur, "11")])[0]
+            if ml != vf.run_impl(impl_d, "C04", [case_line(cur, "11")], deadline_ms=120000)[0]:
+                rp["expected"] = ml
+        c.violation(key, "docker build (MAX_USERS %d): " % maxu_d + text + "  [history: %s]" % rp["history"][1:], rp)
+    lap("docker histories compared and judged")
+    c.cov["docker_build"] = {"MAX_USERS": maxu_d, "scenarios": [n_ for n_, _ in dcases[:n_dfixed]], "generated_histories": len(dcases) - n_dfixed}
+    c.sample({"docker_history": dshown[0][:1500]})
+
     # ---------------------------------------------------------------- reload through bbs.ReloadUHash (sysop only): implementation only, differential
     # the same history three ways: reload asked by SYSOP, by a plain user, and issued directly with cache.LoadUHash
     tbl = [b"SYSOP", b"alice"] + (fams[0][:4] if fams else [b"Bob2"]) + [b""] * maxu
@@ -682,7 +1000,7 @@ def main():
                 lens[len(slots)] = lens.get(len(slots), 0) + 1
     c.cov["chain_length_histogram_over_observed_buckets"] = {str(k_): v for k_, v in sorted(lens.items())}
     c.cov["pool"] = {"collision_families": [[i.decode() for i in f[:5]] for f in fams], "colliding_with_the_empty_id": [i.decode() for i in with_empty],
-                     "prefix_chains (colliding ids, each a proper prefix of the next)": [[i.decode() for i in t] for t in prefix_chains], "prefix_scenarios": n_prefix,
+                     "prefix_chains (colliding ids, each a proper prefix of the next)": [[i.decode() for i in t] for t in prefix_chains], "prefix_scenarios": n_prefix, "leftover_scenarios": n_left,
                      "battery_size": len(battery), "buckets_watched": len(buckets), "ids_tried_for_collisions": tries}
     c.sample({"history": shown[n_fixed][:1500], "result_prefix": " ".join(io[n_fixed].split()[:60])})
     c.sample({"history": shown[0][:1200]})
@@ -692,19 +1010,30 @@ def main():
                                  "%d prefix scenarios over %d chains of colliding ids in which each id is a proper prefix of the next (one extra character; two or three extra characters; triples; "
                                  "the empty id with ids of its own bucket): every order of arrival through SetUserID and through a cold load, every id looked up in 4 letter cases with one character less / more / "
                                  "different while only the others are present, while all are, after each removal; DoSearchUserRaw of the empty id (free-slot search)" % (n_prefix, len(prefix_chains)),
+                                 "%d leftover scenarios: ids in buffers that held a longer id before (12 / 11 characters, bytes >= 0x80, the tail of the colliding longer id of a prefix pair) as "
+                                 "arguments of SetUserID / AddToUHash, as .PASSWDS records on a cold load, on a reload from records with OTHER leftovers and on a cold load by a second process, and as queries; "
+                                 "each id looked up clean and dirty in several letter cases; DoSearchUserRaw of the empty id in a dirty buffer" % n_left,
+                                 "docker build (MAX_USERS %d): %d scenarios - 5000 records with users behind more than %d free records; %d / %d / %d free records ahead of the first user; 70000 records with users "
+                                 "at slots 65535..65537 and operations on the last two slots of the table" % (maxu_d, n_dfixed, PREALLOC, PREALLOC - 1, PREALLOC, PREALLOC + 1),
                                  "load matrix, %d scenarios: {cold load of a zeroed (just created / Shm.Reset) segment, of a segment reset after a previous life, of an unloaded segment with the old chains "
                                  "left behind; reload of a loaded segment; reload of a loaded-then-modified segment} x {executed by the creator, by a second process attached with NewSHM(isCreate=false), "
                                  "by a second process started with NewSHM(isCreate=true)} x {empty, short, full, colliding .PASSWDS}, each followed by lookups from a third process, set / remove / add by both "
                                  "processes and a reload by the other process" % len(matrix)]
     vf.ipc_cleanup()
+    lap("done")
     c.finish(rule="one case = a history on a zeroed segment: write .PASSWDS, LoadUHash, then up to 60 of SetUserID / RemoveFromUHash / AddToUHash (only on a slot that is on no chain) / SearchUserRaw / "
                   "reload from an agreeing .PASSWDS / cold load over the dirty or reset segment / attach by a second process; every operation, the first load included, is executed either by the process "
                   "that created the segment or (0 to 90 percent of the operations of a history) by a second process that attached to the existing segment with or without the create flag (IsNew false) "
                   "and is killed when it does not answer within 2.5 s (status 2 = does not terminate; the first two such verdicts are re-run with 12 s); ids from a pool of 16-bit collision families (one with the empty id's bucket), colliding prefix chains (an id, the id plus one character, plus two or three, "
                   "the empty id and ids of its bucket), case twins, a 12-byte id, junk after the NUL, full 50-id tables; after every step the chains of all watched buckets, the count of non-empty heads, all stored ids and a battery of lookups (scenarios: every id they use in 4 letter cases plus near misses; generated histories: a random 96 of the pool's %d) "
                   "are compared with the extracted model and judged against the check's reference dict; a step is distinct by (operation, arguments, "
-                  "reference state after it)" % len(battery),
+                  "reference state after it). Half of the generated histories draw 30 or 60 percent of their ids (set / add arguments, .PASSWDS records, queries) in buffers with leftovers of a longer id behind the NUL. "
+                  "The same on a second driver built with -tags docker (MAX_USERS 2 000 000): sparse .PASSWDS files of 1 000 to 70 000 records in which more than PRE_ALLOCATED_USERS free records precede live users, "
+                  "watched slots instead of the whole table, compared with the extracted model instantiated at the docker constants and judged by the same reference (a record with a valid id is always stored and indexed; "
+                  "free records only while at most PRE_ALLOCATED_USERS have been seen)" % len(battery),
              assumptions=["types.Cstrcmp/Cstrcasecmp == 0 are re-specified as equality of the (case-folded) NUL-terminated prefixes (C18 is about those functions)",
+                          "docker build: files of at most 70 000 records are loaded (a full 2 000 000-record .PASSWDS is 1 GB); the last slots of the table are reached through SetUserID / AddToUHash; the zeroed / reset segment "
+                          "(2 000 000-step self-loops) is exercised on the default build only; a record with a non-empty invalid id behind more than PRE_ALLOCATED_USERS free records is outside the premises",
                           "one writer at a time (concurrent registrations are C15): the second process runs its operation while the first one waits, so two LoadUHash calls racing each other are not driven",
                           "an operation of a second process that has not returned after 2.5 s (12 s on the re-run; LoadUHash over 2^16 buckets and 50 records takes milliseconds) never returns", "SysV shmget/shmat give every attached process the same bytes",
                           "killUser does not release the slot in the index (C03's finding, row 19 of DESIGN section 6); this check drives cache.* only"])
